@@ -116,6 +116,53 @@ class ListSub(list):
         raise RuntimeError('no len')
 
 
+class SlowStr:
+    """Rendering this value takes 150 ms (of the harness's clock) - more than the time one tracepoint may spend collecting."""
+    def __str__(self):
+        if rig.VirtualClock.CURRENT is not None:
+            rig.VirtualClock.CURRENT.advance(150_000_000)
+        return 'slow'
+
+
+class BadGetattribute:
+    """Every attribute access raises - __class__ and __dict__ included (lazy / context-local proxies do this while unbound)."""
+    def __getattribute__(self, name):
+        raise RuntimeError('unbound proxy: ' + name)
+
+
+class _Target:
+    pass
+
+
+def _dead_proxy():
+    import weakref
+    t = _Target()
+    p = weakref.proxy(t)
+    del t
+    return p            # every access raises ReferenceError
+
+
+class ArgsNone(Exception):
+    args = None
+
+
+class ArgsRaises(Exception):
+    @property
+    def args(self):
+        raise RuntimeError('no args')
+
+
+def _mock_exc():
+    from unittest import mock
+    return mock.Mock(spec=ValueError)
+
+
+def _named(name, with_len):
+    """A user class that is merely *named* like a built-in container."""
+    body = {'__len__': (lambda self: 2)} if with_len else {}
+    return type(name, (), body)()
+
+
 def _gen():
     yield 'first'
     yield 'second'
@@ -168,6 +215,10 @@ VALUES = {
     'stringio': lambda: io.StringIO('text'), 'deep': _deep, 'strsub': lambda: StrSub('s'), 'dictsub': lambda: DictSub(a=1),
     'listsub': lambda: ListSub([1]), 'set_of_tuples': lambda: {(1, 2), (3, 4)}, 'nested_bad': lambda: [BadStr(), {'k': BadRepr()}, (BadLen(),)],
     'big_int': lambda: 10 ** 5000, 'notimplemented': lambda: NotImplemented, 'ellipsis': lambda: ..., 'bound_method': lambda: [].append,
+    'badgetattribute': BadGetattribute, 'dead_weakref_proxy': _dead_proxy, 'exc_args_none': ArgsNone, 'exc_args_raises': ArgsRaises, 'mock_exception': _mock_exc,
+    'named_list': lambda: _named('list', False), 'named_set_len': lambda: _named('set', True), 'named_tuple': lambda: _named('tuple', False),
+    'named_frozenset_len': lambda: _named('frozenset', True), 'named_dict': lambda: _named('dict', False), 'named_str': lambda: _named('str', False),
+    'nested_unbound': lambda: {'items': [1, 2, BadGetattribute()]}, 'slow_str': SlowStr,
     'thread': lambda: threading.current_thread(), 'frame': lambda: __import__('sys')._getframe(), 'traceback': lambda: _tb(),
 }
 
